@@ -22,7 +22,7 @@ EXPLANATION = (
     'inside the exception wrapper; (g) the sent-futures handed to the application are settled by the close sequence '
     '(both queues drained) and by the sender on every edge out of the write. Not decided: behaviour per byte offset '
     '(all cut points funnel into the three receiver exits) and timing.')
-EXPLANATION_ADDED = ("(h) the reconnect listener's exits fail the registered streams; (i) a cancellation delivered inside the sender or the keepalive loops ends the task; wrap_transport_exception really raises RSocketTransportError; _fail_unsent_frames drains both queues (only while non-empty, until empty) and fails every pending sent-future; close() stops the tasks and then closes an obtained transport; the loop's isinstance dispatch agrees with the handler roles derived from behaviour.")
+EXPLANATION_ADDED = ("(h) the reconnect listener's exits fail the registered streams; (i) a cancellation delivered inside the sender or the keepalive loops ends the task; wrap_transport_exception really raises RSocketTransportError; _fail_unsent_frames drains both queues (only while non-empty, until empty) and fails every pending sent-future; close() stops the tasks and then closes an obtained transport; the loop's isinstance dispatch agrees with the handler roles derived from behaviour; (j) close() of a load-balancer strategy closes every member of the pool requests are routed over, with one member's failing close() isolated from the others (gather with return_exceptions, or a contained await per member), and the load-balancer socket's close()/__aexit__ await it unconditionally; a failing transport.close() is contained in _close_transport.")
 EXPLANATION = EXPLANATION.replace(' Not decided', ' ' + EXPLANATION_ADDED + ' Not decided', 1) \
     if ' Not decided' in EXPLANATION else EXPLANATION + ' ' + EXPLANATION_ADDED
 ASSUMPTIONS = COMMON_ASSUMPTIONS + [
@@ -768,6 +768,114 @@ def rule_wrap(ctx, rule='C11.f'):
             'sender do not recognise it as loss of the connection')
 
 
+def _group_close_sites(fn):
+    """(call node, iterated expression, how) for every `<element>.close()` whose receiver is the variable of a loop or
+    comprehension inside `fn`."""
+    out = []
+    for n in walk_local(fn.node):
+        gens = []
+        if isinstance(n, (ast.ListComp, ast.SetComp, ast.GeneratorExp)):
+            gens = [(g.target, g.iter, g.ifs, n.elt, 'comprehension') for g in n.generators]
+        elif isinstance(n, (ast.For, ast.AsyncFor)):
+            gens = [(n.target, n.iter, [], n, 'loop')]
+        for target, it, ifs, body, how in gens:
+            if not isinstance(target, ast.Name):
+                continue
+            nodes = ast.walk(body) if how == 'comprehension' else (x for st in body.body for x in ast.walk(st))
+            for c in nodes:
+                if isinstance(c, ast.Call) and isinstance(c.func, ast.Attribute) and c.func.attr == 'close' and \
+                        isinstance(c.func.value, ast.Name) and c.func.value.id == target.id:
+                    out.append((c, it, ifs, n, how))
+    return out
+
+
+def rule_group_close(ctx, rule='C11.j'):
+    """close() of a socket that stands for several connections (the load balancer strategies) closes every member,
+    whatever the close() of another member does: a member that never connected raises from close(), and a sequential
+    `await` would leave the members behind it open, their pending requests hanging and their keepalives running."""
+    rep = ctx.report
+    repo = ctx.repo
+    strat = repo.cls('rsocket.load_balancer.load_balancer_strategy:LoadBalancerStrategy')
+    impls = [k for k in repo.concrete_subclasses(strat, include_self=False)]
+    if len(impls) < 2:
+        raise AnalysisError('%s: expected two load balancer strategies, found %d' % (rule, len(impls)))
+    for k in impls:
+        cl = k.lookup('close')
+        sel = k.lookup('select')
+        if cl is None or sel is None:
+            raise AnalysisError('%s: %s has no close/select' % (rule, k.name))
+        # the collection the requests are routed over
+        pools = {ast.unparse(n.value) for n in ast.walk(sel.node) if isinstance(n, ast.Subscript) and
+                 ast.unparse(n.value).startswith('self.')}
+        sites = _group_close_sites(cl)
+        ok, detail = True, ''
+        if not sites:
+            ok, detail = False, 'close() closes no member of the pool'
+        for call, it, ifs, holder, how in sites:
+            if ast.unparse(it) not in pools:
+                ok, detail = False, 'close() iterates %s, requests are routed over %s' % (
+                    ast.unparse(it), ', '.join(sorted(pools)))
+            if ifs:
+                ok, detail = False, 'close() skips members (%s)' % ast.unparse(ifs[0])
+            # failure isolation
+            parents = {}
+            for a in ast.walk(cl.node):
+                for b in ast.iter_child_nodes(a):
+                    parents[b] = a
+            chain = []
+            x = call
+            while x in parents:
+                x = parents[x]
+                chain.append(x)
+            direct_await = chain and isinstance(chain[0], ast.Await)
+            gathered = [a for a in chain if isinstance(a, ast.Call) and
+                        ast.unparse(a.func) in ('asyncio.gather', 'gather')]
+            if direct_await:
+                guarded = False
+                for a in chain:
+                    if a is holder:
+                        break
+                    if isinstance(a, ast.Try) and any(
+                            h.type is None or ast.unparse(h.type) in ('Exception', 'BaseException')
+                            for h in a.handlers):
+                        guarded = True
+                if how == 'comprehension' or not guarded:
+                    ok, detail = False, 'members are closed one after the other with nothing containing a failure ' \
+                                        '(line %d): the first close() that raises leaves the rest open' % call.lineno
+            elif gathered:
+                g = gathered[0]
+                iso = any(kw.arg == 'return_exceptions' and isinstance(kw.value, ast.Constant) and
+                          kw.value.value is True for kw in g.keywords)
+                awaited = isinstance(parents.get(g), ast.Await)
+                if not iso:
+                    ok, detail = False, 'gather() without return_exceptions=True: the first failing close() ends ' \
+                                        'the wait while others are still closing'
+                if not awaited:
+                    ok, detail = False, 'the gathered close() calls are not awaited'
+            else:
+                ok, detail = False, 'the member close() coroutines (line %d) are neither awaited nor gathered' % \
+                    call.lineno
+        # only the auto-close switch may guard it
+        tests = [ast.unparse(n.test) for n in walk_local(cl.node) if isinstance(n, (ast.If, ast.IfExp))]
+        if any(t not in ('self._auto_close',) for t in tests):
+            ok, detail = False, 'close() is conditional on %s' % tests[0]
+        rep.add(rule, '%s.close / every member closed, failures isolated' % k.name, cl, ok,
+                detail or 'close() closes every member of %s; one member failing does not stop the others' %
+                ', '.join(sorted(pools)))
+    lb = repo.cls('rsocket.load_balancer.load_balancer_rsocket:LoadBalancerRSocket')
+    for name in ('close', '__aexit__'):
+        m = lb.lookup(name)
+        if m is None:
+            raise AnalysisError('%s: LoadBalancerRSocket.%s vanished' % (rule, name))
+        aw = [n for n in walk_local(m.node) if isinstance(n, ast.Await) and isinstance(n.value, ast.Call) and
+              ast.unparse(n.value.func) == 'self._strategy.close']
+        cond = [n for n in walk_local(m.node) if isinstance(n, (ast.If, ast.Try, ast.Return)) and
+                n.lineno < (aw[0].lineno if aw else 10 ** 9)]
+        rep.add(rule, 'LoadBalancerRSocket.%s / closes the strategy' % name, m, bool(aw) and not cond,
+                'awaits strategy.close() unconditionally' if aw and not cond else
+                'does not (unconditionally) await strategy.close()')
+
+
 def rule_plumbing(ctx):
     from . import plumbing
     plumbing.rule_fail_unsent(ctx, 'C11.g')
@@ -776,4 +884,4 @@ def rule_plumbing(ctx):
 
 
 RULES = [('C11.a', rule_a), ('C11.b', rule_b), ('C11.b', rule_b2), ('C11.c', rule_c), ('C11.d', rule_d), ('C11.e', rule_e),
-         ('C11.f', rule_f), ('C11.g', rule_g), ('C11.h', rule_h), ('C11.i', rule_i), ('C11.f', rule_wrap), ('C11.g+C11.e', rule_plumbing)]
+         ('C11.f', rule_f), ('C11.g', rule_g), ('C11.h', rule_h), ('C11.i', rule_i), ('C11.f', rule_wrap), ('C11.g+C11.e', rule_plumbing), ('C11.j', rule_group_close)]
